@@ -427,7 +427,7 @@ namespace smt
                     else
                         layers.back().old_constrs.emplace(from_to, nullptr);
                 }
-                dist_constr.emplace(from_to, dist);
+                dist_constr[from_to] = dist;
                 propagate(dist->from, dist->to, dist->dist);
             }
             break;
@@ -460,7 +460,7 @@ namespace smt
                     else
                         layers.back().old_constrs.emplace(to_from, nullptr);
                 }
-                dist_constr.emplace(to_from, dist);
+                dist_constr[to_from] = dist;
                 propagate(dist->to, dist->from, -dist->dist - 1);
             }
             break;
@@ -495,7 +495,7 @@ namespace smt
             _preds[vars.first][vars.second] = pred;
         for (const auto &[vars, dist] : layers.back().old_constrs)
             if (dist) // we replace the current constraint..
-                dist_constr.emplace(vars, dist);
+                dist_constr[vars] = dist;
             else // we make some cleanings..
                 dist_constr.erase(vars);
         layers.pop_back();
